@@ -36,10 +36,18 @@ def run(ctx):
     rnb = ctx.func(B + '._read_next_block')
     # ---- D1 decode
     ctx.clause = 'D1'
-    for nb in (8, 4):
-        agree_ref(ctx, rnb, REF_READ_NEXT_BLOCK, f'_read_next_block[{nb} bit]: header skipped, block decoded to complex samples '
-                  '(4 bit: high nibble real, low nibble imaginary, both sign-extended), target statistics from the block',
-                  what=('return', 'substores', 'calls', 'loopstores', 'raises'), heap={'num_bits': lift(nb)}, expand=False, max_depth=0)
+    # (precondition of the property: the input is a valid recording, so a block holds a whole number of samples per channel --
+    #  (BLOCSIZE / OBSNCHAN) / bytes_per_sample is an integer; how the code rounds that quotient is then immaterial)
+    whole = ctx.spec(rnb, 'np.floor(self.block_size / (self.num_antennas * self.num_chans)) / self.bytes_per_sample',
+                     I=ctx.interp(expand=False))
+    T.EXACT_RATIOS.append(whole)
+    try:
+        for nb in (8, 4):
+            agree_ref(ctx, rnb, REF_READ_NEXT_BLOCK, f'_read_next_block[{nb} bit]: header skipped, block decoded to complex samples '
+                      '(4 bit: high nibble real, low nibble imaginary, both sign-extended), target statistics from the block',
+                      what=('return', 'substores', 'calls', 'loopstores', 'raises'), heap={'num_bits': lift(nb)}, expand=False, max_depth=0)
+    finally:
+        T.EXACT_RATIOS.remove(whole)
     agree_ref(ctx, rnb, REF_READ_NEXT_BLOCK, '_read_next_block[other bit depth] is rejected', what=('raises',),
               heap={'num_bits': lift(2)}, expand=False, max_depth=0)
     fd = ctx.func(B + '.from_data')
